@@ -25,6 +25,7 @@ var rR16w = RuleRef{Name: "R16w", Doc: "durability points and validation before 
 		{Pkg: walPkg, Fn: "WAL.cut", At: "call:Fsync", NeedAll: []string{"OK|Rename"}, What: "directory fsync comes after the rename"},
 		{Pkg: walPkg, Fn: "WAL.SaveSnapshot", At: "ret-ok", NeedAll: []string{"OK|encode", "C|sync"}, What: "a snapshot record is synced before SaveSnapshot returns"},
 		{Pkg: walPkg, Fn: "Repair", At: "ret-true", AllEdges: true, NeedAll: []string{"OK|Fsync"}, IfMay: []string{"C|Truncate"}, What: "the truncated file is fsynced before the repair is reported successful"},
+		{Pkg: walPkg, Fn: "Repair", At: "call:Validate", AllEdges: true, NeedAll: []string{"T|cmp:Sum32()!=0"}, What: "the segment-head CRC record is validated (Validate resets the record on mismatch) only when the decoder already has a running CRC"},
 		{Pkg: walPkg, Fn: "decoder.decodeRecord", At: "ret-nil", NeedAll: []string{"OK|Unmarshal"}, NeedAny: []string{"OK|Validate", "F|cmp:Type!=4"}, What: "a record is handed out only after it unmarshalled and its CRC validated (CRC records excepted)"},
 		{Pkg: snapPkg, Fn: "Read", At: "ret-nil", NeedAll: []string{"OK|Unmarshal", "F|cmp:Update()!=Crc"}, What: "a snapshot is returned only after its CRC matched"},
 		{Pkg: snapPkg, Fn: "Snapshotter.save", At: "ret-nil", NeedAll: []string{"OK|WriteAndSyncFile"}, What: "snapshot files are written through WriteAndSyncFile"},
@@ -42,6 +43,31 @@ var rR16w = RuleRef{Name: "R16w", Doc: "durability points and validation before 
 			}
 		}
 		c.Add("R16w", fnName(fn), "isTornEntry is consulted on the unmarshal-failure arm and on the CRC-mismatch arm", fn.Pos(), n >= 2, "found "+itoa(n)+" calls")
+	}
+	// ReadAll: an entry at index i supersedes everything from i on: the slice is truncated before the append
+	if fn := c.P.Func(walPkg, "WAL.ReadAll"); fn != nil {
+		truncAppend, inPlace := 0, 0
+		for _, b := range fn.Blocks {
+			for _, in := range b.Instrs {
+				switch x := in.(type) {
+				case *ssa.Call:
+					if ap, ok := isAppend(x); ok && strings.Contains(ap.Type().String(), "raftpb.Entry") {
+						if sl, ok := ap.Call.Args[0].(*ssa.Slice); ok && sl.High != nil && sl.Low == nil {
+							truncAppend++
+						} else {
+							inPlace++
+						}
+					}
+				case *ssa.Store:
+					if ia, ok := x.Addr.(*ssa.IndexAddr); ok && strings.HasPrefix(ia.X.Type().String(), "[]") && strings.Contains(ia.X.Type().String(), "raftpb.Entry") {
+						inPlace++
+					}
+				}
+			}
+		}
+		c.Add("R16w", fnName(fn), "a re-read entry truncates the collected log at its index before it is appended", fn.Pos(), truncAppend >= 1 && inPlace == 0, fmt.Sprintf("append(ents[:up], e) sites: %d, other writes into the entry slice: %d", truncAppend, inPlace))
+	} else {
+		c.Undecided("R16w", "anchor (*WAL).ReadAll")
 	}
 	// raftexample never disables fsync
 	var bad []string
